@@ -162,6 +162,7 @@ def ftype_table(src, enum_name):
 
 
 PRIM = {"u8": 1, "u16": 2, "u32": 4, "u64": 8, "u128": 16}
+IPV4_FIELDS = set()
 
 
 def parse_layout(src, struct_name, nth=0):
@@ -207,6 +208,7 @@ def parse_layout(src, struct_name, nth=0):
             fields.append((name, ("protoOf", mp.group(1)), 1))
         elif mi and ty == "Ipv4Addr":
             fields.append((name, ("wire", 4), 4))
+            IPV4_FIELDS.add(name)
         else:
             raise Unrecognised("struct %s.%s: nom attribute %s" % (struct_name, name, a))
     return fields
@@ -515,7 +517,7 @@ def gen():
                 known.append(en[mm.group(1)])
             else:
                 raise Unrecognised("ScopeDataField::parse arm %r" % lhs)
-        return {"table": sorted((n, en[v]) for n, v in ft.items()), "default": en[fd], "known": sorted(known)}
+        return {"table": sorted((n, en[v]) for n, v in ft.items()), "default": en[fd], "known": sorted(known), "enum": en}
     attempt("scope", f_scope)
 
     def f_fields(src, enum_name):
@@ -650,6 +652,9 @@ def emit(out):
     for key in ("commonV9", "commonIp"):
         k = out[key]
         A("def %s : CommonKeys := { %s, ts := %s }" % (key, ", ".join("%s := %d" % (n, k[n]) for n in ("src4", "src6", "dst4", "dst6", "sport", "dport", "proto", "first", "last", "smac", "dmac")), lean_str(k["ts"])))
+    A("/-- struct fields of type `Ipv4Addr` (serialised as dotted strings) -/")
+    A("def ipv4Fields : List String := %s" % lean_list(lean_str(x) for x in sorted(IPV4_FIELDS)))
+    A("def scopeNames : List (Nat × String) := %s" % lean_list('(%d, "%s")' % (d, n) for n, d in sorted(out["scope"]["enum"].items(), key=lambda x: x[1])))
     A("def noGlobals : Bool := %s" % ("true" if not out["globals"] else "false"))
     A("")
     A("def lookupD {β : Type} (tbl : List (Nat × β)) (d : β) (n : Nat) : β := (tbl.lookup n).getD d")
